@@ -236,12 +236,16 @@ def _run(tok):
         return hx(script.Script(unlist(uncmd, a[0])).raw_serialize())
     if op == "scr_parse":
         s = io.BytesIO(unhex(a[0]))
+        if len(a) > 1:
+            s.read(int(a[1]))           # the caller has already consumed a header
         sc = script.Script.parse(s)
         return lst(cmdS, sc.cmds) + " " + hx(s.read())
     if op == "vi_enc":
         return hx(helper.encode_varint(int(a[0])))
     if op == "vi_read":
         s = io.BytesIO(unhex(a[0]))
+        if len(a) > 1:
+            s.read(int(a[1]))
         n = helper.read_varint(s)
         return "%d %s" % (n, hx(s.read()))
     if op == "scr_build":
@@ -266,6 +270,17 @@ def _run(tok):
         nd = unnode(a[0])
         with _Prf(a[2]):
             return nodeS(nd.derive_path(unlist(int, a[1])))
+    if op == "ckd_retry":
+        nd = unnode(a[0])                    # ONE parent object for the whole sequence of requests
+        outs = []
+        with _Prf(a[2]):
+            for ch in a[3]:
+                try:
+                    c = nd.ckd(index=int(a[1])) if ch == "c" else nd.derive_path([int(a[1])])
+                    outs.append(nodeS(c))
+                except Exception:
+                    outs.append("err")
+        return " ; ".join(outs)
     if op == "master":
         with _Prf(a[2]):
             return nodeS(bip32.PrvKeyNode.master_key(bip39_seed=unhex(a[0]), testnet=unbool(a[1])))
@@ -283,7 +298,10 @@ def _run(tok):
             return nodeS(klass.parse(unstr(a[3]), testnet=t))
         if a[2] == "b":
             return nodeS(klass.parse(unhex(a[3]), testnet=t))
-        return nodeS(klass.parse(io.BytesIO(unhex(a[3])), testnet=t))
+        st = io.BytesIO(unhex(a[3]))
+        if a[2].startswith("io@"):
+            st.read(int(a[2][3:]))      # stream positioned after earlier records / a header
+        return nodeS(klass.parse(st, testnet=t))
     if op == "node_eq":
         return boolS(unnode(a[0]) == unnode(a[1]))
     # C09
@@ -360,6 +378,21 @@ def _run(tok):
     if op == "paranoia":
         w = make_wallet(a[0])
         return jsonS(cli.paranoia_mode(w.generate(account=int(a[1]), interval=(int(a[2]), int(a[3])))))
+    if op == "paranoia_seq":
+        import copy
+        w1, w2 = make_wallet(a[0]), make_wallet(a[4])
+        d1 = w1.generate(account=int(a[1]), interval=(int(a[2]), int(a[3])))
+        d1c = copy.deepcopy(d1)
+        r1 = cli.paranoia_mode(d1)                    # held by the caller ...
+        d2 = w2.generate(account=int(a[5]), interval=(int(a[6]), int(a[7])))
+        r2 = cli.paranoia_mode(d2)                    # ... while a later request is served
+        return " ".join([jsonS(r1), jsonS(r2), boolS(d1 == d1c)])
+    if op == "generate_seq":
+        w1 = make_wallet(a[0])
+        w2 = w1 if a[4] == "same" else make_wallet(a[4])
+        r1 = w1.generate(account=int(a[1]), interval=(int(a[2]), int(a[3])))
+        r2 = w2.generate(account=int(a[5]), interval=(int(a[6]), int(a[7])))
+        return " ".join([jsonS(r1), jsonS(r2)])
     if op == "json_text":
         w = make_wallet(a[0])
         data = w.generate(account=int(a[1]), interval=(int(a[2]), int(a[3])))
